@@ -1,0 +1,30 @@
+//go:build !verif
+
+// Package verifhook contains seams for external verification harnesses.
+// Without the `verif` build tag every function in here is an empty, inlinable
+// no-op, so the hooks have no effect on normal builds.
+package verifhook
+
+import (
+	"context"
+	"time"
+)
+
+// Enabled reports if the hooks are compiled in.
+const Enabled = false
+
+// Yield marks a scheduling / decision point.
+func Yield(point, name string) {}
+
+// Now allows overriding a timestamp taken with time.Now().
+func Now(site string, t time.Time) time.Time { return t }
+
+// Sleep allows taking over a context sleep. If handled is false, the caller
+// performs the actual sleep.
+func Sleep(ctx context.Context, d time.Duration) (handled bool, err error) { return false, nil }
+
+// Int allows overriding an integer parameter.
+func Int(site string, v int) int { return v }
+
+// Skip reports if an optional, non-functional step must be skipped.
+func Skip(site string) bool { return false }
